@@ -73,7 +73,7 @@ func buildGraph(c *engine.C, o graphOpts) genGraph {
 				c.Tag("self-loop")
 			}
 			for k := 0; k < mult; k++ {
-				ms[i].Calls = append(ms[i].Calls, GCall{ms[j].Pkg, ms[j].Class, ms[j].Name})
+				ms[i].Calls = append(ms[i].Calls, GCall{Pkg: ms[j].Pkg, Class: ms[j].Class, Name: ms[j].Name})
 			}
 		}
 	}
@@ -82,9 +82,27 @@ func buildGraph(c *engine.C, o graphOpts) genGraph {
 		c.Tag("unresolved")
 	}
 	if external {
-		ms[0].Calls = append(ms[0].Calls, GCall{"x", "Ext", "e"})
+		ms[0].Calls = append(ms[0].Calls, GCall{Pkg: "x", Class: "Ext", Name: "e"})
 		g.Extern = "x.Ext.e"
 		c.Tag("external")
+	}
+	// call-site positions as a real analysis would record them: absent, one call per line, or every call of a
+	// method on one line (different columns)
+	if o.Extras {
+		switch engine.PickTag(c, "call-positions", "none", "one-per-line", "all-on-one-line") {
+		case "one-per-line":
+			for i := range ms {
+				for j := range ms[i].Calls {
+					ms[i].Calls[j].Line, ms[i].Calls[j].Col = 10*(i+1)+j, 8
+				}
+			}
+		case "all-on-one-line":
+			for i := range ms {
+				for j := range ms[i].Calls {
+					ms[i].Calls[j].Line, ms[i].Calls[j].Col = 10*(i+1), 8+12*j
+				}
+			}
+		}
 	}
 	g.Model = GModel{Methods: ms}
 	for _, m := range ms {
@@ -178,7 +196,7 @@ func calibrateBudget() int {
 	mk := func(name string, callees ...string) GMethod {
 		m := GMethod{Pkg: "p", Class: "A", Name: name}
 		for _, c := range callees {
-			m.Calls = append(m.Calls, GCall{"p", "A", c})
+			m.Calls = append(m.Calls, GCall{Pkg: "p", Class: "A", Name: c})
 		}
 		return m
 	}
@@ -359,7 +377,7 @@ func c03GenApi(o graphOpts) func(c *engine.C) engine.Case {
 			di = map[string]string{t.Pkg + "." + t.Class: "p.Impl"}
 			last := g.Model.Methods[o.N-1]
 			g.Model.Methods = append(g.Model.Methods, GMethod{Pkg: "p", Class: "Impl", Name: t.Name,
-				Calls: []GCall{{last.Pkg, last.Class, last.Name}}})
+				Calls: []GCall{{Pkg: last.Pkg, Class: last.Class, Name: last.Name}}})
 			c.Tag("di")
 		}
 		return func() engine.Result { return checkApiGraph(g, apis, di) }
